@@ -173,7 +173,7 @@ Next == /\ l <= Len(Rec)
         /\ LET r == Rec[l] IN
            /\ z1' = IF r.op = "zone" /\ r.slot = 1 THEN l ELSE z1
            /\ z2' = IF r.op = "zone" /\ r.slot = 2 THEN l ELSE z2
-           /\ LET w == Why(r) IN IF w = "" THEN TRUE ELSE PrintT(<<"MISMATCH", l, w>>)
+           /\ LET w == Why(r) IN IF w = "" THEN TRUE ELSE PrintT("MISMATCH|" \o ToString(l) \o "|" \o w)
         /\ l' = l + 1
 Spec == Init /\ [][Next]_vars
 Consumed == TLCGet("stats").diameter = Len(Rec) + 1
